@@ -140,6 +140,13 @@ class RefMap:
         if lname == "inkey":
             self._function_call(m, st, "INKEY$", [], bound.get("k"), lname)
             return
+        if lname in FUNC_PROCS and len(args) != len(params) and len(args) == len(FUNC_PROCS[lname][1]) + 1:
+            # interface mismatch (reported as `arity`, C14): keep executing with the evident intent - inputs first,
+            # result variable last - so that order / once / first (C05) stay observable
+            fname, ins, outp = FUNC_PROCS[lname]
+            vals = [m.ev(st, a)[1] for a in args[:-1]]
+            self._function_call(m, st, fname, vals, (args[-1], "n"), lname)
+            return
         if lname in FUNC_PROCS:
             fname, ins, outp = FUNC_PROCS[lname]
             vals = []
